@@ -5,7 +5,22 @@ use wellen::{
     FileFormat, GetItem, Hierarchy, HierarchyItem, Scope, ScopeType, SignalEncoding, SignalRef, VarDirection, VarType,
 };
 
-fn walk(h: &Hierarchy, items: wellen_items::Items, path: &mut Vec<String>, out: &mut String, ls: &mut Vec<String>, lv: &mut Vec<String>) {
+/// a variable's key: `<name>` or `<name>@<index>` (declared with a one-bit index)
+fn var_key(h: &Hierarchy, v: &wellen::Var) -> String {
+    match v.index() {
+        Some(i) => format!("{}@{}", v.name(h), i.msb()),
+        None => v.name(h).to_string(),
+    }
+}
+
+fn var_key_full(h: &Hierarchy, v: &wellen::Var) -> String {
+    match v.index() {
+        Some(i) => format!("{}@{}", v.full_name(h), i.msb()),
+        None => v.full_name(h),
+    }
+}
+
+fn walk(h: &Hierarchy, items: wellen_items::Items, path: &mut Vec<String>, out: &mut String, ls: &mut Vec<String>, lv: &mut Vec<String>, lvi: &mut Vec<String>) {
     let mut first = true;
     for item in items {
         if !first {
@@ -22,15 +37,24 @@ fn walk(h: &Hierarchy, items: wellen_items::Items, path: &mut Vec<String>, out: 
                 absent.push("~none~".to_string());
                 ls.push(format!("{}={}", absent.join("/"), h.lookup_scope(&absent[..]).map(|x| x.index().to_string()).unwrap_or("-".into())));
                 out.push_str(&format!("S({}){{", name));
-                walk(h, wellen_items::Items::Scope(s, h), path, out, ls, lv);
+                walk(h, wellen_items::Items::Scope(s, h), path, out, ls, lv, lvi);
                 out.push('}');
                 path.pop();
             }
             HierarchyItem::Var(v) => {
                 let name = v.name(h).to_string();
-                out.push_str(&format!("V({},{})", name, v.signal_ref().index()));
+                let key = var_key(h, v);
+                out.push_str(&format!("V({},{})", key, v.signal_ref().index()));
                 let r = h.lookup_var(&path[..], &name);
-                lv.push(format!("{}:{}={}", path.join("/"), name, r.map(|x| x.index().to_string()).unwrap_or("-".into())));
+                lv.push(format!("{}:{}={}", path.join("/"), key, r.map(|x| x.index().to_string()).unwrap_or("-".into())));
+                if let Some(idx) = v.index() {
+                    let r = h.lookup_var_with_index(&path[..], &name, &Some(idx));
+                    lvi.push(format!("{}:{}={}", path.join("/"), key, r.map(|x| x.index().to_string()).unwrap_or("-".into())));
+                    // the same name with another index (<index>9)
+                    let other: i64 = format!("{}9", idx.msb()).parse().unwrap();
+                    let r = h.lookup_var_with_index(&path[..], &name, &Some(wellen::VarIndex::new(other, other)));
+                    lvi.push(format!("{}:{}9={}", path.join("/"), key, r.map(|x| x.index().to_string()).unwrap_or("-".into())));
+                }
             }
         }
     }
@@ -58,18 +82,19 @@ pub fn dump_navigation(h: &Hierarchy) -> String {
     let mut tree = String::new();
     let mut ls = vec![];
     let mut lv = vec![];
+    let mut lvi = vec![];
     let mut path = vec![];
-    walk(h, wellen_items::Items::Top(h), &mut path, &mut tree, &mut ls, &mut lv);
-    let top_vars: Vec<String> = h.vars().map(|v| h.get(v).name(h).to_string()).collect();
+    walk(h, wellen_items::Items::Top(h), &mut path, &mut tree, &mut ls, &mut lv, &mut lvi);
+    let top_vars: Vec<String> = h.vars().map(|v| var_key(h, h.get(v))).collect();
     let top_scopes: Vec<String> = h.scopes().map(|s| h.get(s).name(h).to_string()).collect();
     let mut sc = vec![format!("<top>[{}|{}]", top_vars.join(","), top_scopes.join(","))];
     for s in h.iter_scopes() {
         let s: &Scope = s;
-        let vars: Vec<String> = s.vars(h).map(|v| format!("{}#{}", h.get(v).name(h), v.index())).collect();
+        let vars: Vec<String> = s.vars(h).map(|v| format!("{}#{}", var_key(h, h.get(v)), v.index())).collect();
         let scopes: Vec<String> = s.scopes(h).map(|c| format!("{}#{}", h.get(c).name(h), c.index())).collect();
         sc.push(format!("{}[{}|{}]", s.full_name(h), vars.join(","), scopes.join(",")));
     }
-    let iv: Vec<String> = h.iter_vars().map(|v| v.full_name(h)).collect();
+    let iv: Vec<String> = h.iter_vars().map(|v| var_key_full(h, v)).collect();
     let is: Vec<String> = h.iter_scopes().map(|s| s.full_name(h)).collect();
     let ns = h.num_unique_signals();
     let st: String = (0..ns + 1)
@@ -78,18 +103,19 @@ pub fn dump_navigation(h: &Hierarchy) -> String {
     let us: Vec<String> = h
         .get_unique_signals_vars()
         .iter()
-        .map(|v| v.as_ref().map(|v| v.full_name(h)).unwrap_or("-".to_string()))
+        .map(|v| v.as_ref().map(|v| var_key_full(h, v)).unwrap_or("-".to_string()))
         .collect();
     let sigok = h.iter_vars().all(|v| v.signal_ref().index() < ns && h.get_signal_tpe(v.signal_ref()).is_some());
     let fs = h.first_scope().map(|s| s.full_name(h)).unwrap_or("-".to_string());
     format!(
-        "T={};SC={};IV={};IS={};LS={};LV={};NS={};ST={};US={};OK={};FS={}",
+        "T={};SC={};IV={};IS={};LS={};LV={};LVI={};NS={};ST={};US={};OK={};FS={}",
         tree,
         sc.join(" "),
         iv.join(","),
         is.join(","),
         ls.join(" "),
         lv.join(" "),
+        lvi.join(" "),
         ns,
         st,
         us.join(","),
@@ -109,9 +135,15 @@ pub fn hier(toks: &[&str]) -> String {
                     b.add_scope(name, None, ScopeType::Module, None, None, f[2] == "1");
                 }
                 "v" => {
-                    let name = b.add_string(f[1].to_string());
+                    // `<name>` or `<name>@<index>`
+                    let (base, idx) = match f[1].split_once('@') {
+                        Some((n, i)) => (n, Some(i.parse::<i64>().unwrap())),
+                        None => (f[1], None),
+                    };
+                    let name = b.add_string(base.to_string());
                     let sig = SignalRef::from_index(f[2].parse::<usize>().unwrap()).unwrap();
-                    b.add_var(name, VarType::Wire, SignalEncoding::bit_vec_of_len(1), VarDirection::Unknown, None, sig, None, None);
+                    let index = idx.map(|i| wellen::VarIndex::new(i, i));
+                    b.add_var(name, VarType::Wire, SignalEncoding::bit_vec_of_len(1), VarDirection::Unknown, index, sig, None, None);
                 }
                 "p" => b.pop_scope(),
                 _ => return "bad-request".to_string(),
